@@ -56,10 +56,15 @@ func TestDrive(t *testing.T) {
 	case "":
 		t.Skip("concdrive: no -mode given")
 	case "gen":
+		out := bufio.NewWriterSize(os.Stdout, 1<<20)
 		for _, h := range generate(genOptions()) {
-			fmt.Println(string(h.canonical()))
+			out.Write(h.canonical())
+			out.WriteByte('\n')
 		}
-		os.Exit(0)
+		out.Flush()
+		if f := flag.Lookup("test.cpuprofile"); f == nil || f.Value.String() == "" {
+			os.Exit(0) // no "PASS" line after the histories
+		}
 	case "worker":
 		worker(t)
 	case "batch":
